@@ -112,4 +112,4 @@ def prop(case):
     return Obs(nontrivial, labels, checks=len(nl['po']) + len(nl['st']))
 
 
-PARTS = [Part('sim2v', prop, strategy=cases, quick=(8, 500), thorough=(16, 8000))]
+PARTS = [Part('sim2v', prop, strategy=cases, quick=(8, 500), thorough=(16, 25000))]
